@@ -2433,8 +2433,9 @@ class BADS:
                 | ~np.isreal(f_target_s)
                 | ~np.isfinite(f_target_s)
             ):
-                f_target_mu = self.optim_state["fval"]
-                f_target_s = self.optim_state["fsd"]
+                f_target_mu = np.atleast_2d(float(self.optim_state["fval"]))
+                f_target_s = np.atleast_1d(float(self.optim_state["fsd"]))
+                fs2 = f_target_s**2
 
             # f_target: Set optimization target slightly below the current incumbent
             if self.options["alternative_incumbent"]:
